@@ -77,7 +77,7 @@ def run_child(spec, timeout=120):
 def child_spec(mods, loc, sess, mode="trace", **kw):
     spec = {"loc": loc, "moddir": os.path.join(mods, "v%d" % sess["v"]), "version": sess["v"], "mode": mode,
             "journal": loc + ".journal", "compress": sess.get("compress", False), "cb": sess.get("cb"),
-            "actions": sess["acts"], "state": True, "nkeys": 6}
+            "actions": sess["acts"], "state": True, "nkeys": 6, "verbose": sess.get("verbose", 0)}
     spec.update(kw)
     return spec
 
@@ -316,21 +316,27 @@ def run_crash(env, prep, point, recover_cb):
     pidmap[r1.get("pid", -1)] = prep["tid"]
     comp = prep["sess"].get("compress", False)
     rec = S(prep["cur"], [C(x) for x in RECOVER_KEYS], cb=recover_cb, compress=comp)
-    # every other public read path, each in its own fresh process on its own copy of the crashed directory
-    extras = []
-    for tag, acts, cb in extra_recoveries():
-        d = loc + "_" + tag
-        copy_dir(loc, d)
-        extras.append((tag, d, S(prep["cur"], acts, cb=cb, compress=comp)))
-    r2 = run_child(child_spec(env.mods, loc, rec, mode="trace", pre_state=True))
+    # the crashed directory is read back through every public read path: one interpreter imports joblib,
+    # then forks once per path; each fork starts from the restored crashed directory
+    snap = loc + ".snap"
+    copy_dir(loc, snap)
+    variants = [{"tag": "main", "actions": rec["acts"], "cb": recover_cb, "verbose": 0, "compress": comp}]
+    sessions = {"main": rec}
+    for tag, acts, cb, verb in extra_recoveries():
+        variants.append({"tag": tag, "actions": acts, "cb": cb, "verbose": verb, "compress": comp})
+        sessions[tag] = S(prep["cur"], acts, cb=cb, compress=comp, verbose=verb)
+    rm = run_child(child_spec(env.mods, loc, rec, mode="trace", pre_state=True, variants=variants, snapshot=snap), timeout=300)
+    res = rm.get("variants", {})
+    r2 = res.get("main", rm)
     pidmap[r2.get("pid", -2)] = prep["tid"] + 1
-    shutil.rmtree(loc, ignore_errors=True)
     xs = []
-    for tag, d, sess in extras:
-        rx = run_child(child_spec(env.mods, d, sess, mode="trace", pre_state=True))
+    for tag, acts, cb, verb in extra_recoveries():
+        rx = res.get(tag, rm)
         pm = dict(pidmap)
+        pm.pop(r2.get("pid", -2), None)
         pm[rx.get("pid", -3)] = prep["tid"] + 1
-        xs.append({"tag": tag, "sess": sess, "r": rx, "pidmap": pm})
+        xs.append({"tag": tag, "sess": sessions[tag], "r": rx, "pidmap": pm})
+    for d in (loc, snap):
         shutil.rmtree(d, ignore_errors=True)
         if os.path.exists(d + ".journal"):
             os.unlink(d + ".journal")
@@ -339,14 +345,16 @@ def run_crash(env, prep, point, recover_cb):
 
 
 def extra_recoveries():
-    """(tag, actions, callback); 'shelve*' are also compared with the model (AShelve)"""
+    """(tag, actions, callback, Memory verbosity); 'shelve*' are also compared with the model (AShelve).
+    The verbosity levels 0 (main read-back), 1, 3, 11 switch on the printing branches of load_item,
+    _cached_call, _call and dump_item."""
     ks = RECOVER_KEYS
     return [
-        ("shelve", [{"a": "shelve", "k": k} for k in ks], None),
-        ("shelve_cb", [{"a": "shelve", "k": k} for k in ks], "valid"),
-        ("probe", [x for k in ks for x in ({"a": "check", "k": k}, {"a": "mr", "k": k}, C(k))], None),
-        ("probe_cb", [x for k in ks for x in ({"a": "check", "k": k}, {"a": "mr", "k": k})], "valid"),
-        ("shelve_clear", [{"a": "shelve_clear_call", "k": k} for k in ks], None),
+        ("shelve", [{"a": "shelve", "k": k} for k in ks], None, 3),
+        ("shelve_cb", [{"a": "shelve", "k": k} for k in ks], "valid", 11),
+        ("probe", [x for k in ks for x in ({"a": "check", "k": k}, {"a": "mr", "k": k}, C(k))], None, 11),
+        ("probe_cb", [x for k in ks for x in ({"a": "check", "k": k}, {"a": "mr", "k": k}, C(k))], "valid", 3),
+        ("shelve_clear", [{"a": "shelve_clear_call", "k": k} for k in ks], None, 1),
     ]
 
 
